@@ -424,6 +424,20 @@ def check_headers(cx, e_id, f_id):
                     inst.violation(rb.path, "%s length field" % cname, "cannot interpret the length expression: %s" % ex)
         if nread != 3:
             inst.violation(rb.path, "Datagram literals", "expected three Datagram literals in read_datagram, found %d" % nread)
+        # the payload follows its header: extend(header literal) is followed by extend(datagram.data), nothing else
+        ext = [(l, show(wb.operand_expr(t["args"][1]))) for l, t in wb.calls("Vec::extend_from_slice")]
+        hdrs = [l for l, a in ext if a.startswith("array{")]
+        datas = [l for l, a in ext if a == "arg2.data"]
+        others = [a for l, a in ext if not a.startswith("array{") and a != "arg2.data"]
+        inst.site(wb, None, "payload copies: %d header literals, %d payload copies" % (len(hdrs), len(datas)))
+        if others or len(hdrs) != 3 or len(datas) != 3:
+            inst.violation(wb.path, "payload copy", "DataFrameBuilder::add appends %s besides header literals and the datagram's data" % (others or "an unexpected number of slices"))
+        for h in hdrs:
+            if wb.reach_exit_avoiding(h, datas) is not None:
+                inst.violation(wb.path, "header without payload", "a datagram header is appended without its payload following it", at=wb.span_at(h))
+        for dl in datas:
+            if wb.reach_from_entry_avoiding(dl, hdrs) is not None:
+                inst.violation(wb.path, "payload before header", "a payload is appended before its header", at=wb.span_at(dl))
         # encoded_size selects the class under the same predicates as add
         es = R.body("frame::serial::build::DataFrameBuilder::encoded_size")
         efa = cx.fa(es)
